@@ -130,6 +130,49 @@ func hostileWorkload(r *mon.Run, run func(hostileCase) (consumedIfAllRejected in
 		})
 		r.Count("exhaustive:annotation body tokens:visited", visited)
 	}
+	// (a3) the same with an enum rule @e and a type @t registered, so that bare references inside an annotation are
+	// resolved and the loader goes on to what follows them (line breaks, commas, further rules, notes)
+	{
+		refAlpha := []string{"{", "}", "{enum:", "{type:", "@e", `"@t"`, ",", "\n", " ", "minLength: 1", "// c\n", " - note", `"a"`}
+		L := r.Pick(5, 6)
+		var visited int64
+		rules := []typeDef{{Name: "@e", Text: `["a", "z"]`}}
+		types := []typeDef{{Name: "@t", Text: `"a" // {minLength: 1}`}}
+		gen.TokensShardedAt(refAlpha, L, 2, r.Shard, mon.LogicalShards, func(s []byte, n int, dup bool) bool {
+			if dup {
+				return true
+			}
+			visited++
+			p := project{Root: `"a" /* ` + string(s) + ` */`, Rules: rules, Types: types}
+			run(hostileCase{Kind: "project", Project: &p, Source: "annotation body tokens with a registered rule and type"})
+			if visited%3 == 0 {
+				q := project{Root: "{\n  \"k\": \"a\" // " + strings.ReplaceAll(string(s), "\n", " ") + "\n}", Rules: rules, Types: types}
+				run(hostileCase{Kind: "project", Project: &q, Source: "annotation body tokens with a registered rule and type"})
+			}
+			return true
+		})
+		r.Count("exhaustive:annotation body tokens with registered names:visited", visited)
+	}
+	// (f3) an or rule on every kind of example, written as names and as rule-sets, with and without nullable
+	// (accepted ones are converted to OpenAPI)
+	{
+		oi := 0
+		for _, ex := range []string{"null", "1", `"s"`, "true", "1.5", "{}", "[]", "@t"} {
+			for _, list := range []string{`["null", "string"]`, `["integer", "string"]`, `[{type: "null"}, {type: "boolean"}]`, `["@t", "float"]`, `[{type: "@t", nullable: true}, "null"]`,
+				`["object", "array"]`, `[{type: "enum", enum: [null, 1, "s"]}, "any"]`, `["mixed", "decimal"]`, `[{type: "string", minLength: 0}, {type: "integer", min: 0}, "null"]`} {
+				for _, extra := range []string{"", ", nullable: true", ", nullable: false", ", optional: true", `, type: "mixed"`} {
+					if r.Mine(oi) {
+						types := []typeDef{{Name: "@t", Text: `1.5 // {min: 0}`}}
+						for _, root := range []string{ex + " // {or: " + list + extra + "}", "{\n  \"k\": " + ex + " // {or: " + list + extra + "}\n}", "[\n  " + ex + " // {or: " + list + extra + "}\n]"} {
+							p := project{Root: root, Types: types}
+							run(hostileCase{Kind: "project", Project: &p, Source: "or rule on every kind of example"})
+						}
+					}
+					oi++
+				}
+			}
+		}
+	}
 	// (b) corpus: every truncation (quick: every literal of this shard; long literals sampled), single-token mutations (thorough: all)
 	corpus := gen.Corpus(r.Repo)
 	r.CountMax("max:corpus_literals", int64(len(corpus)))
@@ -542,7 +585,7 @@ func init() {
 		ID:                 "C02",
 		Run:                func(r *mon.Run) { hostileRun(r, c02Judge(r)) },
 		Replay:             hostileReplay(c02Judge),
-		Rule:               "hostile inputs to every public entry point (JSchema Len/Check/Example/GetAST/UsedUserTypes/AddType/AddRule, Enum Len/Check/Values/GetAST, RSchema Check/Len/Example/GetAST/Pattern/AddType, Document Check/Len/NextLexeme in both modes, NewNumber, GuessSchemaType, OpenAPI conversion of accepted schemas), each call on fresh objects under a recover: (a) every token string up to a length bound per family (schema 34 tokens, len 3 quick / 5 thorough, with viable-prefix pruning from the H3 scanner probe; enum, regex, number, document alphabets; every number-shaped byte string over 0 1 - + . e x up to 5 / 6 hosted in an enum rule, a schema value, a rule value and a document; annotation bodies: 19 compound tokens (incl. the empty string) up to 5 / 6 inside `1 /* … */` and after `1 // `), (b) every truncation, token deletion/duplication/substitution and CRLF/CR variant of every string literal harvested from the repository's tests, (c) random byte and token soups up to 9 KiB, (d) all 1-type (and, thorough, 2-type; sampled 2/3-type) projects of self/mutually referencing user types from 18 reference templates, (d') 81 x 4 projects with a check-time defect inside a member that other types inherit through allOf or reach by reference (heir named before and after the base, member behind padding lines), (d2) C07's exhaustive small allOf / additionalProperties graphs and 1.6k / 40k random ones, (d3) texts whose first or second line is 100 B .. 70 KB long with a defect on a later line under LF / CRLF / CR, (d4) layered projects of 6..64 layers with two types per layer in seven reference forms (work must not grow with the number of routes), (f2) every numeric rule with 20 magnitudes from 0 to 10^20 on a matching example, (e) nesting ladder up to 2000 (quick) / 10000 (thorough). A violation is an escaped panic, a worker death or CPU-budget overrun that reproduces in a fresh process, or a scan using more than 2*len+8 steps. distinct_nontrivial = distinct (entry family, text) / projects (hashed).",
+		Rule:               "hostile inputs to every public entry point (JSchema Len/Check/Example/GetAST/UsedUserTypes/AddType/AddRule, Enum Len/Check/Values/GetAST, RSchema Check/Len/Example/GetAST/Pattern/AddType, Document Check/Len/NextLexeme in both modes, NewNumber, GuessSchemaType, OpenAPI conversion of accepted schemas), each call on fresh objects under a recover: (a) every token string up to a length bound per family (schema 34 tokens, len 3 quick / 5 thorough, with viable-prefix pruning from the H3 scanner probe; enum, regex, number, document alphabets; every number-shaped byte string over 0 1 - + . e x up to 5 / 6 hosted in an enum rule, a schema value, a rule value and a document; annotation bodies: 19 compound tokens (incl. the empty string) up to 5 / 6 inside `1 /* … */` and after `1 // `), (a3) 13 annotation tokens up to 5 / 6 with an enum rule and a type registered, (f3) an or rule (9 lists x 5 extras) on every kind of example in three placements, (b) every truncation, token deletion/duplication/substitution and CRLF/CR variant of every string literal harvested from the repository's tests, (c) random byte and token soups up to 9 KiB, (d) all 1-type (and, thorough, 2-type; sampled 2/3-type) projects of self/mutually referencing user types from 18 reference templates, (d') 81 x 4 projects with a check-time defect inside a member that other types inherit through allOf or reach by reference (heir named before and after the base, member behind padding lines), (d2) C07's exhaustive small allOf / additionalProperties graphs and 1.6k / 40k random ones, (d3) texts whose first or second line is 100 B .. 70 KB long with a defect on a later line under LF / CRLF / CR, (d4) layered projects of 6..64 layers with two types per layer in seven reference forms (work must not grow with the number of routes), (f2) every numeric rule with 20 magnitudes from 0 to 10^20 on a matching example, (e) nesting ladder up to 2000 (quick) / 10000 (thorough). A violation is an escaped panic, a worker death or CPU-budget overrun that reproduces in a fresh process, or a scan using more than 2*len+8 steps. distinct_nontrivial = distinct (entry family, text) / projects (hashed).",
 		MinNontrivialQuick: 100000, MinNontrivialThorough: 1000000,
 		Assumptions: []string{"inputs up to 64 KiB and nesting up to 10^4 (deeper nesting costs tens of CPU-seconds per call on this tree: slow, but it returns); exponents above 10^6 are rejected by the library since the fix recorded in known_findings.jsonl", "OpenAPI conversion is only exercised for accepted schemas",
 			"a process death counts only if it reproduces on the same case in a fresh process; CPU budget 300 s per case (process CPU time, not wall clock)"},
